@@ -8,6 +8,7 @@ import VectorModel.Spec.Basic
 import VectorModel.Lemmas.Real
 import VectorModel.Refine.Planar
 import VectorModel.Refine.SpatialZ
+import VectorModel.Refine.SpatialAcc
 import VectorModel.Gen.Real.spatial_dot
 import VectorModel.Gen.Real.spatial_cross
 import VectorModel.Gen.Real.spatial_add
@@ -67,10 +68,16 @@ private theorem cot_theta_rhophi_z (r p z : ℝ) (hr : 0 < r) :
   simp only [d_spatial_theta, d_spatial_costheta, d_spatial_mag, d_spatial_mag2, P.nanToNum_eq]
   exact cot_arccos hr rfl
 
+/-! ### dot -/
+
+/-- extra hypothesis forced by the code (see `refine_spatial_dot_defect`): the variant `rhophi_eta_rhophi_z` converts
+the second operand's `z` to `θ = arccos(z/√(ρ²+z²))` and divides by `tan θ`, which loses `z` when `ρ₂ = 0` -/
 def DotOK : Az → Lon → Az → Lon → ℝ → Prop
   | .rhophi, .eta, .rhophi, .z, r2 => 0 < r2
   | _, _, _, _, _ => True
 
+/-- `dot` computes the Euclidean scalar product of the denotations, for all 36 keys; `_partial` because one key needs
+`DotOK` (a representable `ρ₂ = 0` operand breaks it), which the property text does not grant -/
 theorem refine_spatial_dot_partial (k0 : Az) (k1 : Lon) (k2 : Az) (k3 : Lon) (a0 a1 a2 a3 a4 a5 : ℝ)
     (h1 : TanOK k1 a2) (h2 : TanOK k3 a5) (h3 : DotOK k0 k1 k2 k3 a3) :
     spatial_dot.eval k0 k1 k2 k3 a0 a1 a2 a3 a4 a5 = dot3 (cart3 k0 k1 a0 a1 a2) (cart3 k2 k3 a3 a4 a5) := by
@@ -85,6 +92,19 @@ theorem refine_spatial_dot_partial (k0 : Az) (k1 : Lon) (k2 : Az) (k3 : Lon) (a0
     have := ne_of_gt h3
     field_simp
 
+/-- the unconditional statement FAILS for key `(rhophi, eta, rhophi, z)` at the representable operand `ρ₂ = 0`:
+the model value is `0` (floats: `nan` for `z₂ > 0`, `-0.0` for `z₂ < 0`), the scalar product is `ρ₁ sinh η₁ · z₂`. -/
+theorem refine_spatial_dot_defect :
+    spatial_dot.eval .rhophi .eta .rhophi .z 1 0 1 0 0 1
+      ≠ dot3 (cart3 .rhophi .eta 1 0 1) (cart3 .rhophi .z 0 0 1) := by
+  simp only [d_spatial_dot, dot3, cart3, xOf, yOf, zOf, rhoOf, mul_zero, zero_mul, mul_one, one_mul, zero_add]
+  exact (sinh_pos_iff.mpr one_pos).ne
+
+example : TanOK .theta 1 ∧ DotOK .rhophi .eta .rhophi .z 2 :=
+  ⟨ne_of_gt cos_one_pos, by norm_num [DotOK]⟩
+
+/-! ### cross (declared result `[az xy, lon z, none]`) -/
+
 theorem refine_spatial_cross (k0 : Az) (k1 : Lon) (k2 : Az) (k3 : Lon) (a0 a1 a2 a3 a4 a5 : ℝ)
     (h1 : TanOK k1 a2) (h2 : TanOK k3 a5) :
     interp3 (spatial_cross.ret k0 k1 k2 k3) (spatial_cross.eval k0 k1 k2 k3 a0 a1 a2 a3 a4 a5)
@@ -95,4 +115,191 @@ theorem refine_spatial_cross (k0 : Az) (k1 : Lon) (k2 : Az) (k3 : Lon) (a0 a1 a2
     simp only [d_spatial_cross, conv_x_xy, conv_x_rhophi, conv_y_xy, conv_y_rhophi, z1, z2, cross3, cart3,
       interp3, retAz, retLon]
   all_goals rfl
+
+/-! ### scale -/
+
+private theorem sign_cases (f : ℝ) :
+    (f < 0 ∧ P.sign f = -1 ∧ |f| = -f) ∨ (f = 0 ∧ P.sign f = 0 ∧ |f| = 0) ∨ (0 < f ∧ P.sign f = 1 ∧ |f| = f) := by
+  rcases lt_trichotomy f 0 with hf | hf | hf
+  · exact Or.inl ⟨hf, by simp [P.sign, Real.sign_of_neg hf], abs_of_neg hf⟩
+  · subst hf; exact Or.inr (Or.inl ⟨rfl, by simp [P.sign], abs_zero⟩)
+  · exact Or.inr (Or.inr ⟨hf, by simp [P.sign, Real.sign_of_pos hf], abs_of_pos hf⟩)
+
+private theorem scale_turn (f p : ℝ) :
+    |f| * cos (p + -0.5 * (P.sign f - 1) * π) = f * cos p ∧ |f| * sin (p + -0.5 * (P.sign f - 1) * π) = f * sin p := by
+  rcases sign_cases f with ⟨_, hs, ha⟩ | ⟨hf, hs, ha⟩ | ⟨_, hs, ha⟩ <;> rw [hs, ha]
+  · have e : p + -0.5 * (-1 - 1) * π = p + π := by ring
+    rw [e, cos_add_pi, sin_add_pi]; constructor <;> ring
+  · subst hf; simp
+  · have e : p + -0.5 * (1 - 1) * π = p := by ring
+    rw [e]; exact ⟨rfl, rfl⟩
+
+private theorem scale_flip (f θ : ℝ) (h0 : 0 ≤ θ) (h1 : θ ≤ π) :
+    |f| * (cos |θ + 0.5 * (P.sign f - 1) * π| / sin |θ + 0.5 * (P.sign f - 1) * π|) = f * (cos θ / sin θ) := by
+  rcases sign_cases f with ⟨_, hs, ha⟩ | ⟨hf, hs, ha⟩ | ⟨_, hs, ha⟩ <;> rw [hs, ha]
+  · have e : θ + 0.5 * (-1 - 1) * π = -(π - θ) := by ring
+    rw [e, abs_neg, abs_of_nonneg (by linarith), cos_pi_sub, sin_pi_sub]; ring
+  · subst hf; simp
+  · have e : θ + 0.5 * (1 - 1) * π = θ := by ring
+    rw [e, abs_of_nonneg h0]
+
+private theorem scale_eta (f η : ℝ) : |f| * sinh (η * P.sign f) = f * sinh η := by
+  rcases sign_cases f with ⟨_, hs, ha⟩ | ⟨hf, hs, ha⟩ | ⟨_, hs, ha⟩ <;> rw [hs, ha]
+  · rw [mul_neg, mul_one, sinh_neg]; ring
+  · subst hf; simp
+  · rw [mul_one]
+
+private theorem scale_rho (f a b : ℝ) : sqrt ((a * f) ^ 2 + (b * f) ^ 2) = sqrt (a ^ 2 + b ^ 2) * |f| := by
+  have : (a * f) ^ 2 + (b * f) ^ 2 = (a ^ 2 + b ^ 2) * f ^ 2 := by ring
+  rw [this, sqrt_mul (by positivity), sqrt_sq_eq_abs]
+
+/-- the stored polar angle lies in `[0, π]` (implied by `CanonLon`): the code flips θ to `|θ − π|` for negative factors -/
+def ThetaRange : Lon → ℝ → Prop
+  | .theta, c => 0 ≤ c ∧ c ≤ π
+  | _, _ => True
+
+/-- `scale` multiplies the denoted Cartesian vector by the factor, for every factor (including `0` and negatives) -/
+theorem refine_spatial_scale (k0 : Az) (k1 : Lon) (f a b c : ℝ) (h : ThetaRange k1 c) :
+    interp3 (spatial_scale.ret k0 k1) (spatial_scale.eval k0 k1 f a b c) = some (smul3 f (cart3 k0 k1 a b c)) := by
+  have hT := scale_turn f b
+  have hE := scale_eta f c
+  cases k0 <;> cases k1 <;>
+    simp only [d_spatial_scale, interp3, retAz, retLon, smul3, cart3, xOf, yOf, zOf, rhoOf, L.cos_rectify, L.sin_rectify,
+      scale_rho, Option.some.injEq, Prod.mk.injEq]
+  · exact ⟨by ring, by ring, by ring⟩
+  · have hF := scale_flip f c h.1 h.2
+    exact ⟨by ring, by ring, by linear_combination (√(a ^ 2 + b ^ 2)) * hF⟩
+  · exact ⟨by ring, by ring, by linear_combination (√(a ^ 2 + b ^ 2)) * hE⟩
+  · exact ⟨by linear_combination a * hT.1, by linear_combination a * hT.2, by ring⟩
+  · have hF := scale_flip f c h.1 h.2
+    exact ⟨by linear_combination a * hT.1, by linear_combination a * hT.2, by linear_combination a * hF⟩
+  · exact ⟨by linear_combination a * hT.1, by linear_combination a * hT.2, by linear_combination a * hE⟩
+
+theorem ThetaRange_of_canonLon {k0 : Az} {k1 : Lon} {a b c : ℝ} (h : CanonLon k0 k1 a b c) : ThetaRange k1 c := by
+  cases k1
+  · trivial
+  · exact ⟨h.2.1.le, h.2.2.le⟩
+  · trivial
+
+example : ThetaRange .theta 1 := ⟨by norm_num, by linarith [Real.one_le_pi_div_two, Real.pi_pos]⟩
+
+/-! ### add / subtract -/
+
+/-- the exact Cartesian result `p` is representable in the DECLARED result system `r`: results declared with a
+θ/η longitudinal coordinate must be off the z axis (C01's "exact result representable") -/
+def Representable3 (r : Ret) (p : ℝ × ℝ × ℝ) : Prop := retLon r = some .z ∨ 0 < p.1 ^ 2 + p.2.1 ^ 2
+
+private theorem padd_polar (r1 p1 r2 p2 : ℝ) :
+    0 ≤ (planar_add.rhophi_rhophi r1 p1 r2 p2).1 ∧
+    (planar_add.rhophi_rhophi r1 p1 r2 p2).1 * cos (planar_add.rhophi_rhophi r1 p1 r2 p2).2 = r1 * cos p1 + r2 * cos p2 ∧
+    (planar_add.rhophi_rhophi r1 p1 r2 p2).1 * sin (planar_add.rhophi_rhophi r1 p1 r2 p2).2 = r1 * sin p1 + r2 * sin p2 := by
+  have h := refine_planar_add .rhophi .rhophi r1 p1 r2 p2
+  simp only [planar_add.eval, planar_add.ret, interp2, retAz, Option.map, add2, cart2, xOf, yOf, Option.some.injEq,
+    Prod.mk.injEq] at h
+  exact ⟨Real.sqrt_nonneg _, h.1, h.2⟩
+
+private theorem psub_polar (r1 p1 r2 p2 : ℝ) :
+    0 ≤ (planar_subtract.rhophi_rhophi r1 p1 r2 p2).1 ∧
+    (planar_subtract.rhophi_rhophi r1 p1 r2 p2).1 * cos (planar_subtract.rhophi_rhophi r1 p1 r2 p2).2 = r1 * cos p1 - r2 * cos p2 ∧
+    (planar_subtract.rhophi_rhophi r1 p1 r2 p2).1 * sin (planar_subtract.rhophi_rhophi r1 p1 r2 p2).2 = r1 * sin p1 - r2 * sin p2 := by
+  have h := refine_planar_subtract .rhophi .rhophi r1 p1 r2 p2
+  simp only [planar_subtract.eval, planar_subtract.ret, interp2, retAz, Option.map, sub2, cart2, xOf, yOf, Option.some.injEq,
+    Prod.mk.injEq] at h
+  exact ⟨Real.sqrt_nonneg _, h.1, h.2⟩
+
+private theorem polar_pos {r p X Y : ℝ} (h0 : 0 ≤ r) (hx : r * cos p = X) (hy : r * sin p = Y) (h : 0 < X ^ 2 + Y ^ 2) : 0 < r := by
+  rcases h0.lt_or_eq with h0 | h0
+  · exact h0
+  · subst h0; rw [← hx, ← hy] at h; simp at h
+
+private theorem reenc_xy_theta (x y z : ℝ) (h : 0 < x ^ 2 + y ^ 2) :
+    cart3 .xy .theta x y (spatial_theta.xy_z x y z) = (x, y, z) := by
+  have hr : 0 < rhoOf .xy x y := Real.sqrt_pos.mpr h
+  simp only [cart3, spatial_theta_xy_z_zOf x y z hr, xOf, yOf]
+
+private theorem reenc_xy_eta (x y z : ℝ) (h : 0 < x ^ 2 + y ^ 2) :
+    cart3 .xy .eta x y (spatial_eta.xy_z x y z) = (x, y, z) := by
+  have hr : 0 < rhoOf .xy x y := Real.sqrt_pos.mpr h
+  simp only [cart3, spatial_eta_xy_z_zOf x y z hr, xOf, yOf]
+
+private theorem reenc_rhophi_z {r p X Y : ℝ} (z : ℝ) (hx : r * cos p = X) (hy : r * sin p = Y) :
+    cart3 .rhophi .z r p z = (X, Y, z) := by
+  simp only [cart3, xOf, yOf, zOf, hx, hy]
+
+private theorem reenc_rhophi_theta {r p X Y : ℝ} (z : ℝ) (h0 : 0 ≤ r) (hx : r * cos p = X) (hy : r * sin p = Y)
+    (h : 0 < X ^ 2 + Y ^ 2) : cart3 .rhophi .theta r p (spatial_theta.rhophi_z r p z) = (X, Y, z) := by
+  have hr : 0 < rhoOf .rhophi r p := polar_pos h0 hx hy h
+  simp only [cart3, spatial_theta_rhophi_z_zOf r p z hr, xOf, yOf, hx, hy]
+
+private theorem reenc_rhophi_eta {r p X Y : ℝ} (z : ℝ) (h0 : 0 ≤ r) (hx : r * cos p = X) (hy : r * sin p = Y)
+    (h : 0 < X ^ 2 + Y ^ 2) : cart3 .rhophi .eta r p (spatial_eta.rhophi_z r p z) = (X, Y, z) := by
+  have hr : 0 < rhoOf .rhophi r p := polar_pos h0 hx hy h
+  simp only [cart3, spatial_eta_rhophi_z_zOf r p z hr, xOf, yOf, hx, hy]
+
+theorem refine_spatial_add (k0 : Az) (k1 : Lon) (k2 : Az) (k3 : Lon) (a0 a1 a2 a3 a4 a5 : ℝ)
+    (h1 : TanOK k1 a2) (h2 : TanOK k3 a5)
+    (hrep : Representable3 (spatial_add.ret k0 k1 k2 k3) (add3 (cart3 k0 k1 a0 a1 a2) (cart3 k2 k3 a3 a4 a5))) :
+    interp3 (spatial_add.ret k0 k1 k2 k3) (spatial_add.eval k0 k1 k2 k3 a0 a1 a2 a3 a4 a5)
+      = some (add3 (cart3 k0 k1 a0 a1 a2) (cart3 k2 k3 a3 a4 a5)) := by
+  have z1 := refine_spatial_z k0 k1 a0 a1 a2 h1
+  have z2 := refine_spatial_z k2 k3 a3 a4 a5 h2
+  cases k0 <;> cases k2 <;> cases k1 <;> cases k3 <;> simp only [spatial_z.eval] at z1 z2 <;>
+    simp only [d_spatial_add, conv_x_rhophi, conv_y_rhophi, z1, z2, add3, cart3,
+      interp3, retAz, retLon]
+  all_goals try rfl
+  all_goals simp only [Representable3, spatial_add.ret, retLon, add3, cart3, Option.some.injEq, reduceCtorEq, false_or] at hrep
+  · exact congrArg some (reenc_xy_theta _ _ _ hrep)
+  · exact congrArg some (reenc_xy_eta _ _ _ hrep)
+  · obtain ⟨_, hx, hy⟩ := padd_polar a0 a1 a3 a4
+    exact congrArg some (reenc_rhophi_z _ hx hy)
+  · obtain ⟨h0, hx, hy⟩ := padd_polar a0 a1 a3 a4
+    exact congrArg some (reenc_rhophi_theta _ h0 hx hy hrep)
+  · obtain ⟨h0, hx, hy⟩ := padd_polar a0 a1 a3 a4
+    exact congrArg some (reenc_rhophi_eta _ h0 hx hy hrep)
+theorem refine_spatial_subtract (k0 : Az) (k1 : Lon) (k2 : Az) (k3 : Lon) (a0 a1 a2 a3 a4 a5 : ℝ)
+    (h1 : TanOK k1 a2) (h2 : TanOK k3 a5)
+    (hrep : Representable3 (spatial_subtract.ret k0 k1 k2 k3) (sub3 (cart3 k0 k1 a0 a1 a2) (cart3 k2 k3 a3 a4 a5))) :
+    interp3 (spatial_subtract.ret k0 k1 k2 k3) (spatial_subtract.eval k0 k1 k2 k3 a0 a1 a2 a3 a4 a5)
+      = some (sub3 (cart3 k0 k1 a0 a1 a2) (cart3 k2 k3 a3 a4 a5)) := by
+  have z1 := refine_spatial_z k0 k1 a0 a1 a2 h1
+  have z2 := refine_spatial_z k2 k3 a3 a4 a5 h2
+  cases k0 <;> cases k2 <;> cases k1 <;> cases k3 <;> simp only [spatial_z.eval] at z1 z2 <;>
+    simp only [d_spatial_subtract, conv_x_rhophi, conv_y_rhophi, z1, z2, sub3, cart3,
+      interp3, retAz, retLon]
+  all_goals try rfl
+  all_goals simp only [Representable3, spatial_subtract.ret, retLon, sub3, cart3, Option.some.injEq, reduceCtorEq, false_or] at hrep
+  · exact congrArg some (reenc_xy_theta _ _ _ hrep)
+  · exact congrArg some (reenc_xy_eta _ _ _ hrep)
+  · obtain ⟨_, hx, hy⟩ := psub_polar a0 a1 a3 a4
+    exact congrArg some (reenc_rhophi_z _ hx hy)
+  · obtain ⟨h0, hx, hy⟩ := psub_polar a0 a1 a3 a4
+    exact congrArg some (reenc_rhophi_theta _ h0 hx hy hrep)
+  · obtain ⟨h0, hx, hy⟩ := psub_polar a0 a1 a3 a4
+    exact congrArg some (reenc_rhophi_eta _ h0 hx hy hrep)
+
+example : TanOK .theta 1 ∧ Representable3 (spatial_add.ret .xy .theta .xy .theta)
+    (add3 (cart3 .xy .theta 1 0 1) (cart3 .xy .theta 1 0 1)) :=
+  ⟨ne_of_gt cos_one_pos, Or.inr (by norm_num [add3, cart3, xOf, yOf])⟩
+
+/-! ### unit -/
+
+private theorem sqrt_div_pos (a b n : ℝ) (hn : 0 < n) : sqrt ((a / n) ^ 2 + (b / n) ^ 2) = sqrt (a ^ 2 + b ^ 2) / n := by
+  have : (a / n) ^ 2 + (b / n) ^ 2 = (a ^ 2 + b ^ 2) / n ^ 2 := by field_simp
+  rw [this, sqrt_div (by positivity), sqrt_sq hn.le]
+
+theorem refine_spatial_unit (k0 : Az) (k1 : Lon) (a b c : ℝ) (h : Canon3 k0 k1 a b c) (hm : 0 < mag2Of k0 k1 a b c) :
+    interp3 (spatial_unit.ret k0 k1) (spatial_unit.eval k0 k1 a b c)
+      = some (smul3 (1 / sqrt (mag2Of k0 k1 a b c)) (cart3 k0 k1 a b c)) := by
+  have hn := refine_spatial_mag_canon k0 k1 a b c h
+  have hpos : 0 < sqrt (mag2Of k0 k1 a b c) := Real.sqrt_pos.mpr hm
+  generalize sqrt (mag2Of k0 k1 a b c) = n at hn hpos
+  cases k0 <;> cases k1 <;> simp only [spatial_mag.eval] at hn <;>
+    simp only [d_spatial_unit, hn, P.nanToNum_eq, interp3, retAz, retLon, smul3, cart3, xOf, yOf, zOf, rhoOf,
+      sqrt_div_pos _ _ _ hpos, Option.some.injEq, Prod.mk.injEq]
+  all_goals exact ⟨by ring, by ring, by ring⟩
+
+example : Canon3 .rhophi .eta 1 0 0 ∧ 0 < mag2Of .rhophi .eta 1 0 0 := by
+  refine ⟨⟨by norm_num [Canon2], by norm_num [CanonLon, rhoOf]⟩, ?_⟩
+  norm_num [mag2Of, xOf, yOf, zOf, rhoOf]
+
 end VR
